@@ -129,3 +129,13 @@ func init() {
 		Assumptions: []string{"suffix.Sort yields the suffix array (C09)", "bitset queries return the nearest members (bit-level arithmetic not decided)"},
 	}
 }
+
+func init() {
+	properties["C11"] = &Property{
+		Title: "OSAP emits a minimum-cost parse (structural necessary conditions)",
+		Rules: []string{"R-DP-LIT", "R-DP-MATCH", "R-DP-BACK", "R-COSTTABLE", "R-EDGE-NEAREST", "R-SEGCALL", "R-OSAP-INDEX", "R-OSAP-RANGE", "R-SEG-LEFT", "R-SEG-ORDER", "R-SEG-SCAN", "R-SEG-BOUNDS", "R-SEG-PRE"},
+		Decided: "the dynamic program relaxes the literal step from every position and every (edge, length) pair up to min(edge.m, n−i) with the priced (m, o) stored, backtracks by the stored lengths from n to 0; the cost table of Verify and init agree and one cost function prices both step kinds; the edge builder sorts each group, pairs every occurrence with its predecessor, leaves early only monotonically and drops a pair only for window / dominance reasons; Segments is called with MinMatchLen and a MaxMatchLen-clamped maximum on tables of one text; the interval scan behind it is complete (C10 rules).",
+		NotDecided: "optimality itself (a statement about all alternative parses); the cost model against XZ; completeness of the edges as a fact about texts (C09, C10).",
+		Assumptions: []string{"suffix.Sort/LCP are correct (C09)", "cost(a,0) is additive in a (XZCost: 9 bits per literal), so initialising d[i] with cost(i,0) agrees with unit literal steps"},
+	}
+}
